@@ -91,7 +91,15 @@ public:
 
     auto ret = UNSAFE_unverified();
     if (ret != nullptr) {
-      size_t bytes = sizeof(T) * count;
+      // The caller gets a raw T_Pointed* and will use count elements of it
+      using T_El = std::conditional_t<std::is_void_v<T_Pointed> ||
+                                        std::is_function_v<T_Pointed>,
+                                      char,
+                                      T_Pointed>;
+      detail::dynamic_check(
+        count <= std::numeric_limits<size_t>::max() / sizeof(T_El),
+        "Element count overflows the address space");
+      size_t bytes = sizeof(T_El) * count;
       detail::check_range_doesnt_cross_app_sbx_boundary<T_Sbx>(ret, bytes);
     }
     return ret;
